@@ -398,9 +398,22 @@ func TestRace(t *testing.T) {
 		if len(sc.progs) > 2 && !res.Thorough() {
 			continue
 		}
-		for i := 0; i < iters; i++ {
-			body(sc, &observation{cons: map[string][]string{}}, true)
-			res.Count("evaluations", 1)
+		hung := false
+		for i := 0; i < iters && !hung; i++ {
+			done := make(chan struct{})
+			go func() { body(sc, &observation{cons: map[string][]string{}}, true); close(done) }()
+			select {
+			case <-done:
+				res.Count("evaluations", 1)
+			case <-time.After(20 * time.Second):
+				// free-running, a deadlock is a hang: deadlocks are judged by the exploration stage,
+				// the audit only gives up (its goroutines are left behind)
+				res.Cap("race audit abandoned: a free-running run of %s did not end within 20 s (deadlocks are judged by the exploration stage)", ssc.Name)
+				hung = true
+			}
+		}
+		if hung {
+			break
 		}
 		res.Count("scenarios", 1)
 	}
